@@ -32,10 +32,10 @@ MIN_NONTRIVIAL = 100
 def plan(tier, seed):
     out = [s for s in c06.plan(tier, seed) if s["kind"] == "lattice"]
     if tier == "quick":
-        kinds = {"random": 6000, "adversarial": 3000, "exact": 2500}
+        kinds = {"random": 6000, "adversarial": 3000, "exact": 2500, "crowd": 3}
         per = 750
     else:
-        kinds = {"random": 400000, "adversarial": 150000, "exact": 120000}
+        kinds = {"random": 400000, "adversarial": 150000, "exact": 120000, "crowd": 60}
         per = 10000
     return out + common.shards(kinds, per_shard=per, tier=tier, seed=seed)
 
